@@ -11,6 +11,11 @@ from sympy import Rational, Symbol, Function
 from .hir import peel, place, pp, callee, pat_binds
 
 
+def S(name):
+    """The symbol the interpreter uses for a parameter / field of that name."""
+    return Symbol(name, real=True)
+
+
 class Unsupported(Exception):
     def __init__(self, node, why):
         self.node = node
@@ -138,7 +143,7 @@ class Interp:
 
     # -- environment ----------------------------------------------------------------------------
     def sym(self, name):
-        kw = self.symbol_assumptions.get(name, {})
+        kw = self.symbol_assumptions.get(name, {"real": True})
         return Symbol(name, **kw)
 
     def bind_params(self):
